@@ -7,7 +7,9 @@ Tie
   * exact correspondence between the Lean models (Model/Uset.lean, Model/Locate.lean, run through
     Drivers/C18.lean) and the real n2p.mkusetmask / mksetpv / expanddof / mkdofpv / make_uset and
     locate.find_duplicates / flippv / index2bool / index2slice / mat_intersect / list_intersect /
-    merge_lists / find_subseq on integer data (index vectors and exception kinds compared exactly).
+    merge_lists / find_subseq on integer data (index vectors and exception kinds compared exactly);
+    n2p.make_uset with coordinates, n2p.upasetpv / upqsetpv on generated nas2cam-like dictionaries
+    (harness/props/c18_nas.py) and on the nas2cam files of pyYeti's own tests.
 Oracle (model-free): the set identities, look-up contract and defining equations restated on the
 public API with the documented membership table written out by hand below.
 """
@@ -26,46 +28,70 @@ AUDIT_FILE = "PyYetiVerif/Audit/C18.lean"
 THEOREMS = [
     "PyYetiVerif.C18." + n
     for n in (
-        "base_sets_disjoint superset_is_union superset_is_union_bitwise user_sets_separate inSet_subword table_partition mksetpv_refuses_iff mksetpv_spec mksetpv_named expanddof_digits expanddof2_spec lookup_sound lookup_complete mkdofpv_strict_iff mkdofpv_spec mkdofpv_positions mkdofpv_set mat_intersect_spec find_subseq_spec list_intersect_spec flippv_spec index2bool_spec normIndex_spec find_vals_spec find_rows_spec find_unique_spec"
+        "base_sets_disjoint superset_is_union superset_is_union_bitwise user_sets_separate inSet_subword table_partition mksetpv_refuses_iff mksetpv_spec mksetpv_named expanddof_digits expanddof2_spec lookup_sound lookup_complete mkdofpv_strict_iff mkdofpv_spec mkdofpv_positions mkdofpv_set mat_intersect_spec find_subseq_spec list_intersect_spec flippv_spec index2bool_spec normIndex_spec find_vals_spec find_rows_spec find_unique_spec find_duplicates_spec index2slice_cases index2slice_spec merge_lists_spec merge_lists_inserts mkusetmask_plus mksetpv_plus make_uset_sets_partial make_uset_sets_needs_canon make_uset_ids make_uset_coords_partial upasetpv_spec scatter_spec upqsetpv_length upqsetpv_one_upstream qupOwn_spec"
     ).split()
 ]
 TRUSTED = [
     "translator harness/translate/c18_usetmask.py (ast only; cross-checked against executing n2p.mkusetmask())",
     "correspondence harness harness/props/c18.py (exact comparison of index vectors and exception kinds)",
-    "np.argsort / np.searchsorted / np.correlate / pandas boolean .loc are modelled (merge sort on (value, index), "
-    "count of smaller entries, sliding dot product, mask of equal length) and correspondence-checked, not verified",
+    "np.argsort / np.searchsorted / np.correlate / pandas boolean .loc / .iloc slice assignment / Index.isin / numpy "
+    "fancy and boolean index assignment (broadcast of one value, later entry wins on a repeated index) are modelled "
+    "(merge sort on (value, index), count of smaller entries, sliding dot product, mask of equal length, list set) and "
+    "correspondence-checked, not verified",
     "library argsort is not stable: when several haystack rows are equal the reported row is canonicalised to the "
     "first equal row before comparison (mat_intersect); USET tables have distinct (id, dof) keys",
     "Lean `LinearOrder (List Int)` (Mathlib, lexicographic) is used to instantiate the row theorems; the byte-string "
     "order used by mat_intersect is another linear order and the theorems are order-independent",
+    "pySlice (Model/Locate.lean) is a hand model of CPython's PySlice_AdjustIndices / slice length; it is "
+    "correspondence-checked against list(range(n))[slice(a, b, c)] (stream pyslice), not derived from CPython",
+    "harness/props/c18_nas.py builds nas2cam-like dictionaries from a known superelement tree; the expected "
+    "upasetpv / upqsetpv vectors used by the oracle come from that construction",
 ]
 RULE = (
     "USET tables are built with n2p.make_uset from distinct ids (grids with one set per grid or one set per DOF, "
-    "scalar points), set words drawn from base-set masks, Nastran-style words carrying superset bits, and random "
-    "32-bit words; major/minor are named sets, '+' combinations and integer masks; requests are 1-D ids or 2-D "
-    "[id, component-list] rows with present and absent DOF, strict and non-strict; locate inputs are short integer "
+    "scalar points, component lists split over rows, 1-D ids, with and without coordinates), set words drawn from "
+    "base-set masks, Nastran-style words carrying superset bits, and random 32-bit words; major/minor are named "
+    "sets, '+' combinations and integer masks; requests are 1-D ids or 2-D [id, component-list] rows with present "
+    "and absent DOF, strict and non-strict; nas2cam-like dictionaries are generated from a random superelement tree "
+    "(1-4 upstream SEs, depth <= 3; CSUPER-type ids, SECONCT-type internal ids through upids, reordering maps, maps "
+    "that skip DOF, SEs without q-set), each also with one inconsistency (15 kinds: missing entries, out-of-range / "
+    "negative / short / permuted maps, scale != 1, dropped / extra / repeated dnids, short upids, selist rows "
+    "dropped / repeated), plus the three nas2cam files of pyYeti's own tests; locate inputs are short integer "
     "vectors/matrices over small alphabets (to force repeats), index vectors with negative and out-of-range "
-    "entries, arithmetic progressions and near-progressions. A case is one call compared exactly; non-trivial = "
-    "the call reaches a non-default outcome (a refusal, a dropped DOF, a repeated value, a non-empty intersection, "
-    "a slice result, an insertion); distinct by the canonical request line"
+    "entries, arithmetic progressions (ascending, descending, ending at index 0) and near-progressions, fixed edge "
+    "cases (empty, single, all-equal, chains, a difference exactly tol). A case is one call compared exactly; "
+    "non-trivial = the call reaches a non-default outcome (a refusal, a dropped DOF, a repeated value, a non-empty "
+    "intersection, a slice result, an insertion, a flagged row); distinct by the canonical request line"
 )
 ASSUMPTIONS = [
     "nasset words and ids are non-negative integers below 2^63 (int64 column); (id, dof) keys of a table are distinct",
     "locate inputs are integers or dyadic floats k/4 (also float32 / int32 / mixed dtypes), so every float comparison is exact",
+    "selist describes a tree (no SE is its own upstream through a cycle): upqsetpv recurses without a bound, the model "
+    "with fuel len(selist)+2; maps hold integer-valued floats; make_uset coordinates are copied, not computed "
+    "(integer-valued xyz in the correspondence)",
 ]
 PARTIAL = (
-    "proved: lattice (generated table), mksetpv, expanddof, mkdofpv, mat_intersect, find_subseq, list_intersect, "
-    "flippv, index2bool, find_vals, find_rows, find_unique. NOT proved (exact model + correspondence + oracle only): "
-    "find_duplicates_spec (dups[i] iff another value within tol), index2slice_spec (slice <-> arithmetic "
-    "progression, with the pySlice model of CPython slicing), merge_lists_spec (pv equations, list1 order kept), "
-    "make_uset nasset spreading. Float / mixed int-float inputs are dyadic (k/4) and modelled over scaled Int; "
-    "non-dyadic floats (rounding in tol*max, correlate) are outside the exact model. Not modelled: upasetpv/upqsetpv"
+    "make_uset_sets is proved only for the documented request forms (scalar point [id,0], grid [id,123456], grid DOF "
+    "by DOF [id,1]..[id,6], 1-D ids): the full statement (every DOF named by a request row carries that row's set "
+    "word, for every accepted request) is FALSE for the code when a grid's component list is split over several rows "
+    "([[1,123],[1,456]]: DOF 1 and 2 get the two words, DOF 3-6 none; [[1,1],[1,23456]] raises) - theorem "
+    "make_uset_sets_needs_canon, oracle family make-uset-split-component-rows. upqsetpv: proved are the length, the "
+    "index-assignment law (scatter_spec), the flags of one upstream SE (qupOwn_spec) and the exact result for one "
+    "upstream SE without own upstream SEs and without maps (upqsetpv_one_upstream); the multi-level recursion, several "
+    "upstream SEs and the maps branches are modelled, correspondence-checked and covered by the construction oracle, "
+    "not proved. Float / mixed int-float inputs are dyadic (k/4) and modelled over scaled Int; non-dyadic floats "
+    "(rounding in tol*max, correlate, abs(diff) <= tol) are outside the exact model"
 )
 MANIFEST = {
-    "level_text": "proof: lattice theorems decided on the table generated from the source; mksetpv/mkdofpv/"
-    "expanddof and the locate helpers proved against their defining relations for all inputs; exact correspondence",
-    "level_note": "library kernels (argsort, searchsorted, correlate, pandas indexing) are modelled and "
-    "correspondence-checked; find_unique/find_vals/find_rows not covered",
+    "level_text": "proof: lattice theorems decided on the table generated from the source; mksetpv (also with '+' "
+    "combinations), mkdofpv, expanddof, make_uset (sets and coordinates, documented request forms), upasetpv and all "
+    "locate helpers (mat_intersect, find_subseq, list_intersect, flippv, index2bool, find_vals, find_rows, find_unique, "
+    "find_duplicates, index2slice against a model of CPython slicing, merge_lists incl. where new items are inserted) "
+    "proved against their defining relations for all inputs; exact correspondence",
+    "level_note": "library kernels (argsort, searchsorted, correlate, pandas / numpy indexing and index assignment, "
+    "CPython slicing) are modelled and correspondence-checked; upqsetpv beyond one upstream level is tied "
+    "(correspondence + construction oracle) but not proved; make_uset with split component lists violates the "
+    "property (finding)",
     "technique": "Lean 4 proof about executable models + ast translator for mkusetmask + exact differential "
     "correspondence + model-free oracle",
 }
@@ -424,6 +450,119 @@ def _uset_streams(ctx, cs):
     return masks
 
 
+def _fmt_xyz(u_):
+    out = []
+    for (i, d), w, xyz in zip(u_.index.tolist(), u_["nasset"].values.tolist(), u_[["x", "y", "z"]].values.tolist()):
+        out += [str(int(i)), str(int(d)), str(int(w))]
+        out += ["nan" if v != v else str(int(v)) for v in xyz]
+    return " ".join(out)
+
+
+def _makeuset_xyz_stream(ctx, cs, masks):
+    """make_uset with coordinates: scalar / per-grid / per-DOF rows, 1-D ids, split component lists"""
+    n2p, _ = _mods()
+    rng = ctx.rng
+    for _ in range(ctx.pick(200, 2000)):
+        rows, nas, style = _gen_table(ctx, masks)
+        kind, py = "2", rows
+        r0 = rng.random()
+        if r0 < 0.15:
+            py = [r_[0] for r_ in rows]
+            kind = "1"
+        elif r0 < 0.35 and rows:
+            k = rng.randrange(len(rows))
+            rows = [list(r_) for r_ in rows]
+            if rows[k][1] == 123456:
+                cut = rng.choice([1, 2, 3, 4, 5])
+                a_, b_ = "123456"[:cut], "123456"[cut:]
+                rows[k:k + 1] = [[rows[k][0], int(a_)], [rows[k][0], int(b_)]]
+                nas[k:k + 1] = [nas[k], nas[k] ^ 1]
+            py = rows
+        if rng.random() < 0.2:
+            nas = nas[:1]
+        nrow = len(py)
+        xyz = [[rng.randint(-9, 9) for _ in range(3)] for _ in range(nrow if rng.random() < 0.93 else nrow + 1)]
+        sec = _s(py) if kind == "1" else _s([v for r_ in py for v in r_])
+        r = _call(n2p.make_uset, py, nas, xyz)
+        if r[0] == "ok":
+            impl, br = "ok " + _fmt_xyz(r[1]), "make_uset-xyz:ok"
+            if any(v != v for v in r[1]["x"].values.tolist()):
+                br = "make_uset-xyz:unset-rows"
+        else:
+            impl, br = r[0], "make_uset-xyz:" + r[0]
+        cs.add("make_uset-xyz", "makeusetx %s | %s | %s | %s" % (kind, sec, _s(nas), _s([v for t in xyz for v in t])),
+               impl, {"dof": py, "nasset": nas, "xyz": xyz}, nontrivial=True, branch=br)
+
+
+def _nas_reply(r, boolean):
+    if r[0] != "ok":
+        return r[0]
+    v = np.asarray(r[1])
+    return ("ok " + _s(v.astype(int))).strip()
+
+
+def _nas_streams(ctx, cs):
+    """upasetpv / upqsetpv on generated nas2cam-like dictionaries (consistent ones, damaged ones) and on the
+    dictionaries of pyYeti's own test data"""
+    from props import c18_nas as N
+
+    n2p, _ = _mods()
+    rng = ctx.rng
+
+    def both(nas, tag, ses_a, ses_q, known=None):
+        secs = N.serialize(nas)
+        plain = N.to_plain(nas)
+        for c in ses_a:
+            r = _call(n2p.upasetpv, nas, c)
+            br = "upasetpv:" + (r[0] if r[0] != "ok" else "ok")
+            if known is not None and c in known["upa"]:  # labelled by the input, not by the outcome
+                m = nas["maps"].get(c, [])
+                br = "upasetpv:" + ("maps" if len(m) else "upids" if known["kind"].get(c) == "seconct" else "direct")
+            inp = {"nas": plain, "seup": c}
+            if known is not None and c in known["upa"]:
+                inp.update(expected=known["upa"][c], style=known["style"])
+            cs.add("upasetpv" + tag, "upa %d | %s" % (c, secs), _nas_reply(r, False), inp,
+                   nontrivial=r[0] == "ok" and len(r[1]) > 0, branch=br)
+        for s_ in ses_q:
+            r = _call(n2p.upqsetpv, nas, s_)
+            br = "upqsetpv:" + (r[0] if r[0] != "ok" else ("some" if np.any(r[1]) else "none"))
+            inp = {"nas": plain, "sedn": s_}
+            if known is not None and s_ in known["upq"]:
+                inp.update(expected=known["upq"][s_], style=known["style"])
+                br = "upqsetpv:" + ("some" if any(known["upq"][s_]) else "none")
+            cs.add("upqsetpv" + tag, "upq %d | %s" % (s_, secs), _nas_reply(r, True), inp,
+                   nontrivial=r[0] == "ok" and bool(np.any(r[1])), branch=br)
+
+    for it in range(ctx.pick(150, 1500)):
+        nas, info = N.gen_nas(rng)
+        ses = info["order"]
+        kind = {}
+        for c in ses:
+            dn = set(np.asarray(nas["dnids"][c]).tolist())
+            kind[c] = "seconct" if any(v > N.INTERNAL for v in dn) else "csuper"
+        both(nas, "", ses + [rng.choice([0, 999])], [0] + ses + ([999] if rng.random() < 0.2 else []),
+             {"kind": kind, "upa": info["expected_upa"], "upq": info["expected_upq"], "style": info["style"]})
+        depth2 = any(info["parent"][c] != 0 for c in ses)
+        if depth2:
+            ctx.count("upqsetpv:recursive")
+        if info["style"] == "noq":
+            ctx.count("upqsetpv:spoint-rule")
+        if any(info["skipped"].values()):
+            ctx.count("upasetpv:maps-skip")
+        if it < 3 * len(N.DAMAGES) or rng.random() < 0.6:
+            bad, what, cbad = N.damage(rng, nas, N.DAMAGES[it % len(N.DAMAGES)] if it < 3 * len(N.DAMAGES) else None)
+            try:
+                both(bad, "-damaged", sorted({cbad} | {c for c in ses if rng.random() < 0.5}),
+                     [0] + [c for c in ses if rng.random() < 0.3])
+                ctx.count("nas-damage:" + what)
+            except RecursionError:
+                ctx.skip("damaged dictionary with a cyclic selist")
+    for name, nas in N.real_dictionaries(ctx.repo):
+        sl = np.asarray(nas["selist"]).tolist()
+        both(nas, "-real", sorted({r_[0] for r_ in sl}), sorted({r_[1] for r_ in sl} | {r_[0] for r_ in sl}))
+        ctx.count("nas-real-dictionary")
+
+
 def _canon_slice(r):
     if r[0] != "ok":
         return r[0]
@@ -451,12 +590,21 @@ def _locate_streams(ctx, cs):
     n2p, locate = _mods()
     rng = ctx.rng
     N = ctx.pick(400, 4000)
-    # find_duplicates
+    # find_duplicates (explicit edge cases first: empty, single, all equal, chains, a difference exactly tol)
+    fixed_dups = [([], 0), ([5], 0), ([5], 3), ([3, 3, 3, 3], 0), ([2, 0, 1], 1), ([0, 2, 4], 1), ([0, 2, 4], 2),
+                  ([4, 0, 2], 2), ([7, -7], 14), ([7, -7], 13), ([1, 1, 5, 9, 9], 0), ([0, 3, 5, 8, 10], 2)]
     for k in range(N):
         v = _gen_intlist(rng, -4, 6, rng.choice([0, 1, 2, 3, 6, 12, 30]))
         if rng.random() < 0.2:
             v = [x * 1000 for x in v]
         tol = rng.choice([0, 0, 0, 1, 2, 1000])
+        if k < len(fixed_dups):
+            v, tol = list(fixed_dups[k][0]), fixed_dups[k][1]
+        sv = sorted(v)
+        if tol > 0 and any(b - a == tol for a, b in zip(sv, sv[1:])):
+            ctx.count("dups:at-tol")
+        if len(v) > 2 and len(set(v)) == 1:
+            ctx.count("dups:all-equal")
         r = _call(locate.find_duplicates, v, tol) if tol or rng.random() < 0.5 else _call(locate.find_duplicates, v)
         impl = ("ok " + _s(r[1])).strip() if r[0] == "ok" else r[0]
         br = "dups:" + ("short" if len(v) < 2 else ("some" if r[0] == "ok" and any(r[1]) else "none" if r[0] == "ok" else r[0]))
@@ -477,6 +625,8 @@ def _locate_streams(ctx, cs):
         r0 = rng.random()
         if r0 < 0.5:
             a, d, L = rng.randint(-3, 12), rng.choice([-3, -2, -1, 1, 1, 2, 3, 0]), rng.randint(0, 6)
+            if d < 0 and L and rng.random() < 0.4:
+                a = -d * (L - 1) + rng.randint(0, -d)  # a descending progression that ends at index 0 .. -d
             pv = [a + d * i for i in range(L)]
             if rng.random() < 0.25 and pv:
                 pv[rng.randrange(len(pv))] += rng.choice([-1, 1])
@@ -486,6 +636,10 @@ def _locate_streams(ctx, cs):
         r = _call(locate.index2slice, pv, strict)
         impl = _canon_slice(r)
         br = "index2slice:" + ("slice" if impl.startswith("ok slice") else "pv" if impl.startswith("ok pv") else impl)
+        if r[0] == "ok" and isinstance(r[1], slice) and r[1].step is not None and r[1].step < 0:
+            ctx.count("index2slice:stop-none" if r[1].stop is None else "index2slice:neg-step")
+        if r[0] == "ok" and isinstance(r[1], slice) and len(pv) == 1 and pv[0] < 0:
+            ctx.count("index2slice:single-negative")
         cs.add("index2slice", "i2s %d | %s" % (strict, _s(pv)), impl, {"pv": pv, "strict": strict},
                nontrivial=len(pv) > 1, branch=br)
     for k in range(N):
@@ -539,6 +693,10 @@ def _locate_streams(ctx, cs):
             l2 = list(dict.fromkeys(l2))
         r = _call(locate.merge_lists, list(l1), list(l2))
         impl = "ok %s | %s | %s" % (_s(r[1][0]), _s(r[1][1]), _s(r[1][2])) if r[0] == "ok" else r[0]
+        if r[0] == "ok" and r[1][0] != l1 + [x for x in l2 if x not in l1]:
+            ctx.count("merge_lists:inserted-inside")
+        if len(set(l1)) < len(l1) or len(set(l2)) < len(l2):
+            ctx.count("merge_lists:repeats")
         cs.add("merge_lists", "merge | %s | %s" % (_s(l1), _s(l2)), impl, {"list1": l1, "list2": l2},
                nontrivial=r[0] == "ok" and r[1][0] != l1 + [x for x in l2 if x not in l1], branch="merge_lists")
         seq = _gen_intlist(rng, 0, 2, 12)
@@ -676,7 +834,10 @@ def _float_streams(ctx, cs):
 
 def correspondence(ctx):
     cs = Cases(ctx)
-    _uset_streams(ctx, cs)
+    masks = _uset_streams(ctx, cs)
+    if masks and all(k in masks for k in NAMED + USER):
+        _makeuset_xyz_stream(ctx, cs, masks)
+        _nas_streams(ctx, cs)
     _locate_streams(ctx, cs)
     _float_streams(ctx, cs)
     rep = ctx.driver("C18").ask([it[1] for it in cs.items])
@@ -692,6 +853,8 @@ def correspondence(ctx):
     ctx.exhaustive = False  # exhaustive only over the finite set named in extra.exhaustive_set (thorough tier)
     if ctx.thorough:
         ctx.extra["exhaustive_note"] = "exhaustive: true for extra.exhaustive_set only"
+    if ctx.disagreements:
+        return  # the tie is broken already; branch labels taken from the implementation's outcome may be missing
     ctx.require_branches([
         "mask:key", "mask:combo", "mask:key-error",
         "mksetpv:ok", "mksetpv:proper-subset", "mksetpv:value-error", "mksetpv:key-error",
@@ -707,7 +870,14 @@ def correspondence(ctx):
         "mat_intersect-mixed:some", "mat_intersect-mixed:empty", "mat_intersect-mixed:int-vs-float",
         "dups-float:some", "find_subseq-float", "list_intersect-mixed", "find_vals",
         "find_rows:ok", "find_rows:other-length", "find_unique:ok", "find_unique:value-error",
-    ])
+        "dups:at-tol", "dups:all-equal", "index2slice:neg-step", "index2slice:stop-none", "index2slice:single-negative",
+        "pyslice", "merge_lists", "merge_lists:inserted-inside", "merge_lists:repeats", "list_intersect",
+        "make_uset-xyz:ok", "make_uset-xyz:unset-rows", "make_uset-xyz:value-error",
+        "upasetpv:direct", "upasetpv:upids", "upasetpv:maps", "upasetpv:maps-skip", "upasetpv:value-error",
+        "upasetpv:key-error", "upasetpv:index-error",
+        "upqsetpv:some", "upqsetpv:none", "upqsetpv:recursive", "upqsetpv:spoint-rule", "upqsetpv:value-error",
+        "upqsetpv:key-error", "nas-real-dictionary",
+    ] + ["nas-damage:" + w for w in __import__("props.c18_nas", fromlist=["DAMAGES"]).DAMAGES])
 
 
 # ---------------------------------------------------------------------------------------
@@ -861,6 +1031,93 @@ def _oracle_expand(ctx, dof):
                  r[0] if r[0] != "ok" else np.asarray(r[1]).tolist(), want)
 
 
+def _oracle_nas(ctx, inp):
+    """upasetpv / upqsetpv on a dictionary whose expected vector is known by construction (c18_nas.gen_nas)"""
+    from props import c18_nas as N
+
+    n2p, _ = _mods()
+    nas = N.from_plain(inp["nas"])
+    style = inp.get("style", "generated")
+    if "seup" in inp:
+        c = inp["seup"]
+        r = _call(n2p.upasetpv, nas, c)
+        m = nas["maps"].get(c, [])
+        fam = "upasetpv-%s%s" % (style, "-maps" if len(m) else "")
+        if r[0] != "ok" or _il(r[1]) != list(inp["expected"]):
+            ctx.fail(fam + ("-raises" if r[0] != "ok" else "-wrong-rows"),
+                     "upasetpv(nas, %d) must list, in the order of the a-set DOF of SE %d, their rows in the table of "
+                     "the downstream SE" % (c, c), dict(inp, kind="nas"), r[0] if r[0] != "ok" else _il(r[1]),
+                     list(inp["expected"]))
+    else:
+        s_ = inp["sedn"]
+        r = _call(n2p.upqsetpv, nas, s_)
+        depth = any(row[1] != s_ and any(x[1] == row[0] for x in inp["nas"]["selist"]) for row in inp["nas"]["selist"]
+                    if row[1] == s_ and row[0] != s_)
+        fam = "upqsetpv-%s%s" % (style, "-multilevel" if depth else "")
+        if r[0] != "ok" or [int(v) for v in np.asarray(r[1]).tolist()] != list(inp["expected"]):
+            ctx.fail(fam + ("-raises" if r[0] != "ok" else "-wrong-flags"),
+                     "upqsetpv(nas, %d) must flag exactly the rows of SE %d's table that are q-set DOF of an upstream SE "
+                     "(any level; an SE without q-set: its a-set scalar points)" % (s_, s_), dict(inp, kind="nas"),
+                     r[0] if r[0] != "ok" else [int(v) for v in np.asarray(r[1]).tolist()], list(inp["expected"]))
+
+
+_BASIC = [[0, 1, 0], [0, 0, 0], [1, 0, 0], [0, 1, 0], [0, 0, 1]]
+
+
+def _oracle_makeuset(ctx, inp):
+    """make_uset(dof, nasset[, xyz]): every DOF named by a request row carries that row's set word; coordinates by
+    the documented rule.  Requests: 2-column rows whose non-zero component digits run 1..6 grid after grid."""
+    n2p, _ = _mods()
+    dof, nas, xyz = inp["dof"], list(inp["nasset"]), inp.get("xyz")
+    if not dof or not isinstance(dof[0], list):
+        rows = [[i, 123456] for i in dof]
+    else:
+        rows = [list(r_) for r_ in dof]
+    digs = [[int(ch) for ch in str(a)] for _, a in rows]
+    flat = [d for ds in digs for d in ds if d > 0]
+    valid = all(0 <= d <= 6 for ds in digs for d in ds) and len(flat) % 6 == 0 and \
+        flat == [1, 2, 3, 4, 5, 6] * (len(flat) // 6) and all(len(ds) == 1 or 0 not in ds for ds in digs)
+    if not valid or len(nas) not in (1, len(rows)) or (xyz is not None and len(xyz) != len(rows)):
+        return
+    split = any(len(ds) > 1 and ds != [1, 2, 3, 4, 5, 6] for ds in digs)
+    words = nas * len(rows) if len(nas) == 1 else nas
+    want = [[i, d, int(w)] for (i, _), ds, w in zip(rows, digs, words) for d in ds]
+    r = _call(n2p.make_uset, dof, nas, xyz) if xyz is not None else _call(n2p.make_uset, dof, nas)
+    fam = "make-uset-split-component-rows" if split else "make-uset-documented-forms"
+    if r[0] != "ok":
+        ctx.fail(fam if split else fam + "-refused",
+                 "make_uset raises %s on a request whose grids have all six DOF" % r[0],
+                 dict(inp, kind="makeuset"), r[0], want)
+        return
+    u = r[1]
+    got = [[int(i), int(d), int(w)] for (i, d), w in zip(u.index.tolist(), u["nasset"].values.tolist())]
+    if got != want:
+        ctx.fail(fam if split else fam + "-wrong-sets", "every DOF named by a request row must carry that row's "
+                 "set word (rows [id, dof, word])", dict(inp, kind="makeuset"), got, want)
+        return
+    if xyz is not None and not split:
+        wc = []
+        for (i, a), ds, c in zip(rows, digs, xyz):
+            wc += [list(c)] + _BASIC if ds == [1, 2, 3, 4, 5, 6] else [list(c)]
+        gc = [[None if v != v else (int(v) if float(v).is_integer() else float(v)) for v in row]
+              for row in u[["x", "y", "z"]].values.tolist()]
+        if gc != wc:
+            ctx.fail("make-uset-wrong-coordinates", "x y z: location row + the five rows of the basic system for a "
+                     "grid given by one request row, the given row otherwise", dict(inp, kind="makeuset"), gc, wc)
+
+
+def _oracle_maskplus(ctx, spec):
+    n2p, _ = _mods()
+    parts = spec.split("+")
+    r = _call(n2p.mkusetmask, spec)
+    want = 0
+    for p_ in parts:
+        want |= int(n2p.mkusetmask(p_))
+    if r[0] != "ok" or int(r[1]) != want:
+        ctx.fail("mkusetmask-plus-not-the-union", "mkusetmask('x+y') must be mkusetmask('x') | mkusetmask('y')",
+                 {"kind": "maskplus", "spec": spec}, r[0] if r[0] != "ok" else int(r[1]), want)
+
+
 def _oracle_locate(ctx, kind, inp):
     _, locate = _mods()
     if kind == "dups":
@@ -1003,6 +1260,11 @@ def _oracle_locate(ctx, kind, inp):
             c = [x for x in l2 if x in l1]
             if [x for x in l1 if x in l2] == c:
                 ok = ok and all(a < b for a, b in zip(p2, p2[1:]))
+            # a new item of list2 stands immediately in front of its successor in list2; a new last item is last
+            for k, x in enumerate(l2):
+                if x not in l1:
+                    j = m.index(x)
+                    ok = ok and (m[j + 1:j + 2] == [l2[k + 1]] if k + 1 < len(l2) else j == len(m) - 1)
         if not ok:
             ctx.fail("merge-lists-wrong", "merged list / partition vectors violate the documented relations",
                      dict(inp, kind=kind), [m, p1, p2], "list1 == [m[i] for i in pv1], list2 == [m[i] for i in pv2], orders kept")
@@ -1025,6 +1287,12 @@ def _run_one(ctx, inp):
         _oracle_expand(ctx, inp["dof"])
     elif k in ("dups", "matint", "subseq", "flip", "i2s", "lint", "merge", "fvals", "frows", "funique"):
         _oracle_locate(ctx, k, inp)
+    elif k == "nas":
+        _oracle_nas(ctx, inp)
+    elif k == "makeuset":
+        _oracle_makeuset(ctx, inp)
+    elif k == "maskplus":
+        _oracle_maskplus(ctx, inp["spec"])
 
 
 def _hint_to_input(h):
@@ -1035,6 +1303,12 @@ def _hint_to_input(h):
             return {"kind": "expand", "dof": i["dof"]}
         if s in ("find_duplicates", "find_duplicates-float"):
             return dict(i, kind="dups")
+        if s.startswith(("upasetpv", "upqsetpv")):
+            return dict(i, kind="nas") if "expected" in i else None
+        if s in ("make_uset", "make_uset-xyz"):
+            return dict(i, kind="makeuset")
+        if s == "mask" and isinstance(i.get("nasset"), str) and "+" in i["nasset"]:
+            return {"kind": "maskplus", "spec": i["nasset"]} if all(p_ in NAMED + USER for p_ in i["nasset"].split("+")) else None
         if s == "mat_intersect-mixed":
             return dict(i, kind="matint")
         if s == "find_subseq-float":
@@ -1114,6 +1388,41 @@ def search(ctx, hints):
                for _ in range(rng.randint(1, 4))]
         _oracle_expand(ctx, dof)
         ctx.count("oracle:expanddof")
+    # base stream 2b: make_uset (documented forms, and component lists split over rows), '+' masks
+    masks_ = {k: int(v) for k, v in n2p.mkusetmask().items()}
+    for _ in range(ctx.pick(150, 1500)):
+        rows, nas, _style = _gen_table(ctx, masks_)
+        inp = {"dof": rows, "nasset": nas}
+        r0 = rng.random()
+        if r0 < 0.15:
+            inp = {"dof": [r_[0] for r_ in rows], "nasset": nas}
+            rows = [[i, 123456] for i in inp["dof"]]
+        elif r0 < 0.3:
+            k = rng.randrange(len(rows))
+            if rows[k][1] == 123456:
+                cut = rng.randint(1, 5)
+                rows = rows[:k] + [[rows[k][0], int("123456"[:cut])], [rows[k][0], int("123456"[cut:])]] + rows[k + 1:]
+                nas = nas[:k] + [nas[k], nas[k] ^ 1] + nas[k + 1:]
+                inp = {"dof": rows, "nasset": nas}
+        if rng.random() < 0.2:
+            inp["nasset"] = inp["nasset"][:1]
+        if rng.random() < 0.5:
+            inp["xyz"] = [[rng.randint(-9, 9) for _ in range(3)] for _ in range(len(inp["dof"]))]
+        _oracle_makeuset(ctx, inp)
+        ctx.count("oracle:make_uset")
+        _oracle_maskplus(ctx, "+".join(rng.sample(NAMED + USER, rng.randint(2, 4))))
+        ctx.count("oracle:maskplus")
+    # base stream 2c: upasetpv / upqsetpv on generated dictionaries (expected vectors known by construction)
+    from props import c18_nas as N
+    for _ in range(ctx.pick(120, 1200)):
+        nas, info = N.gen_nas(rng)
+        plain = N.to_plain(nas)
+        for c, exp in info["expected_upa"].items():
+            _oracle_nas(ctx, {"nas": plain, "seup": c, "expected": exp, "style": info["style"]})
+            ctx.count("oracle:upasetpv")
+        for s_, exp in info["expected_upq"].items():
+            _oracle_nas(ctx, {"nas": plain, "sedn": s_, "expected": exp, "style": info["style"]})
+            ctx.count("oracle:upqsetpv")
     # base stream 3: locate helpers
     for _ in range(ctx.pick(400, 4000)):
         _oracle_locate(ctx, "dups", {"v": _gen_intlist(rng, -3, 5, rng.choice([0, 1, 2, 5, 12])), "tol": rng.choice([0, 0, 1, 2])})
